@@ -23,13 +23,18 @@ TARGET = "tcp://127.0.0.1:20162"
 
 
 class Clock:
+    """virtual wall clock; `step` is added on every reading (0 = only the harness moves time)."""
+
     def __init__(self) -> None:
         self.now = T0
         self.calls = 0
+        self.step = 0.0
 
     def __call__(self) -> float:
         self.calls += 1
-        return self.now
+        t = self.now
+        self.now += self.step
+        return t
 
 
 CLOCK = Clock()
@@ -379,3 +384,143 @@ def dynamic(m: ref.Model, abstract_state: tuple[Any, ...]) -> list[bytes]:
     if t + 3 <= 0x7E:
         out.append(bytes([0x27, t + 3]) + seed)
     return [p for p in dict.fromkeys(out)]
+
+
+def long_alphabet(m: ref.Model, wide: bool = True) -> list[bytes]:
+    """payloads of 3..8 bytes: SIDs the model or the ISO table knows x every first byte of first_bytes() x three
+    fill patterns; every other SID x first byte {00, 81} x fills {00.., FF..}."""
+    out: list[bytes] = []
+    lengths = (3, 4, 5, 6, 7, 8)
+    for sid in range(256):
+        known = sid in m.anywhere or sid in ref.FORMAT_SIDS
+        if known:
+            for a in first_bytes(m, sid):
+                for n in lengths:
+                    out.append(bytes([sid, a]) + bytes(n - 1))
+                    out.append(bytes([sid, a]) + b"\xff" * (n - 1))
+                    out.append(bytes([sid, a]) + bytes(range(1, n)))
+        else:
+            for a in (0x00, 0x81):
+                for n in lengths if wide else (3, 8):
+                    out.append(bytes([sid, a]) + bytes(n - 1))
+                    out.append(bytes([sid, a]) + b"\xff" * (n - 1))
+    return out
+
+
+def boundary_lengths(m: ref.Model) -> list[bytes]:
+    """4095 byte requests (lengths 1 and 2 are part of the short alphabet)."""
+    out: list[bytes] = []
+    for sid in range(256):
+        out.append(bytes([sid]) + bytes(4094))
+        if sid in m.anywhere or sid in ref.FORMAT_SIDS:
+            out.append(bytes([sid]) + b"\xff" * 4094)
+            for sf in sorted(m.sf_any.get(sid, ()))[:2]:
+                out.append(bytes([sid, sf]) + b"\x55" * 4093)
+                out.append(bytes([sid, sf | 0x80]) + b"\x55" * 4093)
+    return out
+
+
+_GEN_ARGS: dict[str, list[tuple[Any, ...]]] = {
+    "ClearDiagnosticInformationRequest": [(0xFFFFFF,), (0,)],
+    "ClearDynamicallyDefinedDataIdentifierRequest": [(0xF200,), (None,), (0xF200, True)],
+    "CommunicationControlRequest": [(0, 1), (3, 3, True)],
+    "ControlDTCSettingRequest": [(1,), (2, b"\xaa"), (1, b"", True)],
+    "DefineByIdentifierRequest": [(0xF200, 0x1234, 1, 1), (0xF200, [0x1234, 0x5678], [1, 2], [1, 4]), (0xF200, 0x1234, 1, 1, True)],
+    "DefineByMemoryAddressRequest": [(0xF200, 0x1000, 4), (0xF200, [0x1000, 0x2000], [4, 8]), (0xF200, 0x10, 1, 0x11, True)],
+    "DiagnosticSessionControlRequest": [(1,), (2,), (3, True), (0x7F,), (0,)],
+    "ECUResetRequest": [(1,), (4,), (1, True), (0x7F,)],
+    "FreezeCurrentStateRequest": [(0x1234,), (0x1234, b"\xff")],
+    "InputOutputControlByIdentifierRequest": [(0x1234, b"\x00"), (0x1234, b"\x03\xaa", b"\xff")],
+    "ReadDataByIdentifierRequest": [(0xF186,), (0x1234,), ([0x1234, 0xF186, 0xFFFF],), ([0xF186, 0x1234],), (list(range(0x100, 0x120)),)],
+    "ReadMemoryByAddressRequest": [(0x1000, 16), (0, 1, 0x11), (0xFFFFFFFF, 0xFFFF, 0x24)],
+    "ReportDTCExtDataRecordByDTCNumberRequest": [(0x123456, 1), (b"\x12\x34\x56", 0xFF, True)],
+    "RequestDownloadRequest": [(0x1000, 0x100), (0, 1, 1, 1, 0x11)],
+    "RequestUploadRequest": [(0x1000, 0x100), (0, 1, 1, 1, 0x11)],
+    "RequestRoutineResultsRequest": [(0x1234,), (0xFFFF, b"\xaa\xbb"), (0x1234, b"", True)],
+    "StartRoutineRequest": [(0x1234,), (0xFFFF, b"\xaa\xbb"), (0x1234, b"", True)],
+    "StopRoutineRequest": [(0x1234,), (0xFFFF, b"\xaa\xbb"), (0x1234, b"", True)],
+    "RequestSeedRequest": [(1,), (0x7D, b"\xaa"), (1, b"", True)],
+    "SendKeyRequest": [(2, b"\x00"), (0x7E, b"\xaa\xbb", True)],
+    "RequestTransferExitRequest": [(), (b"\xaa",)],
+    "ResetToDefaultRequest": [(0x1234,), (0x1234, b"\xff")],
+    "ReturnControlToECURequest": [(0x1234,), (0x1234, b"\xff")],
+    "ShortTermAdjustmentRequest": [(0x1234, b"\xaa"), (0x1234, b"\xaa\xbb", b"\xff")],
+    "TesterPresentRequest": [(), (True,)],
+    "TransferDataRequest": [(1,), (0xFF, b"\xaa" * 10)],
+    "WriteDataByIdentifierRequest": [(0x1234, b"\xaa"), (0xF186, b"\x01" * 4)],
+    "WriteMemoryByAddressRequest": [(0x1000, b"\xaa\xbb"), (0, b"\x01", 1, 0x11)],
+}
+_STATUS_MASK_ARGS: list[tuple[Any, ...]] = [(0xFF,), (0,), (0xFF, True)]
+_GEN_SKIP = {"RawRequest", "RoutineControlRequest"}
+
+
+def codec_generated() -> tuple[list[bytes], list[str]]:
+    """Requests serialised by gallia's own request classes (every concrete UDSRequest subclass found by
+    introspection).  Returns (pdus, notes about classes that are unknown here or cannot be serialised)."""
+    if "codec_generated" in G:
+        return G["codec_generated"]
+    import inspect
+
+    service = G["service"]
+    pdus: list[bytes] = []
+    notes: list[str] = []
+    for name, cls in sorted(inspect.getmembers(service, inspect.isclass)):
+        if not (issubclass(cls, service.UDSRequest) and not inspect.isabstract(cls)) or name.startswith("_") or name in _GEN_SKIP:
+            continue
+        args = _GEN_ARGS.get(name)
+        if args is None:
+            params = list(inspect.signature(cls.__init__).parameters)
+            if params[1:2] == ["dtc_status_mask"]:
+                args = _STATUS_MASK_ARGS
+            else:
+                notes.append(f"codec-generator-unknown-class:{name}")
+                continue
+        for a in args:
+            try:
+                pdus.append(bytes(cls(*a).pdu))
+            except Exception as e:  # noqa: BLE001 - codec defects are C01's subject, here the request is just not available
+                notes.append(f"codec-generator-unserialisable:{name}{a!r}:{type(e).__name__}")
+    pdus = list(dict.fromkeys(pdus))
+    G["codec_generated"] = (pdus, notes)
+    return pdus, notes
+
+
+def state_items(cfg: dict[str, Any], m: ref.Model) -> list[tuple[tuple[Any, ...], list[Any]]]:
+    """(abstract state, shortest history) for every state the reference predicts reachable; states with an
+    unlocked level are listed twice (the server still remembers / has forgotten the sendKey reply)."""
+    out: list[tuple[tuple[Any, ...], list[Any]]] = []
+    for st, hist in ref.reachable_states(m, {e: G["entropies"][e] for e in cfg["entropies"]}):
+        out.append((st, hist))
+        if st[1] is not None and st[2] is None:
+            out.append((st, hist + [("raw", "00")]))
+    return out
+
+
+def ser(st: tuple[Any, ...]) -> list[Any]:
+    s, lvl, p = st
+    return [s, lvl, None if p is None else [p[0], p[1].hex()]]
+
+
+def de(st: list[Any]) -> tuple[Any, ...]:
+    s, lvl, p = st
+    return (s, lvl, None if p is None else (p[0], bytes.fromhex(p[1])))
+
+
+class FakeWriter:
+    """the part of asyncio.StreamWriter that handle_client uses."""
+
+    def __init__(self) -> None:
+        self.chunks: list[bytes] = []
+        self.drains = 0
+
+    def write(self, data: bytes) -> None:
+        self.chunks.append(bytes(data))
+
+    async def drain(self) -> None:
+        self.drains += 1
+
+    def close(self) -> None:
+        pass
+
+    def get_extra_info(self, name: str, default: Any = None) -> Any:
+        return default
